@@ -296,6 +296,17 @@ Inductive result := RVal | RExc (x : xc).
 Definition run (w : world) (p : prog) (s : st) : result * st :=
   match exec w p XPy s with (SRaise x, s1) => (RExc x, s1) | (_, s1) => (RVal, s1) end.
 
+(* several calls on ONE object: between two calls only the object's fields (the flags), the access counter and
+   the log persist; the registers of a call (data, entry, remembered pids) and the oneshot cache do not *)
+Definition next_call (s : st) : st :=
+  {| s_idx := s_idx s; s_log := s_log s; s_data := data0; s_cur := ""; s_flags := s_flags s;
+     s_cache := false; s_slots := []; s_acc := [] |}.
+Fixpoint run_hist (w : world) (ps : list prog) (s : st) : list (result * st) :=
+  match ps with
+  | [] => []
+  | p :: r => let rs := run w p s in rs :: run_hist w r (next_call (snd rs))
+  end.
+
 (* ------------------------------------------------------------------ the modelled psutil code *)
 (* (scripts are closed terms; which pid they talk about is the world's business) *)
 Definition acc (k : akind) (x : who) (f : fid) := Acc {| l_kind := k; l_who := x; l_file := f |}.
